@@ -193,10 +193,9 @@ void c07(Tape& t, Ctx& ctx) {
 // ===================================================================================== C07x: non-FD cross-check (identity maps)
 // The gradient is re-derived without finite differences and without library code on the oracle side: the reference minimiser
 // (R2), the user's cost gradients at the reference states, the documented quadrature, and the reference Jacobian (R4).
-void c07x(Tape& t, Ctx& ctx) {
-  int N = t.pickw({2, 2, 3, 2, 1, 1}) + 1;
-  double tsc;
-  Problem p = gen_problem(t, N, &tsc);
+template <class Opt, class TM, class SM>
+void c07x_run(Tape& t, Ctx& ctx, Opt& opt, const TM& tm, const SM* sm, const Problem& p, const char* mapname) {
+  const int N = p.N();
   unsigned flagbits = (unsigned)t.range(0, 255);
   double rho = t.flag() ? 0.0 : std::exp2(t.sym(4));
   static const int Ks[] = {1, 2, 3, 4, 5, 8, 16, 64};
@@ -204,25 +203,27 @@ void c07x(Tape& t, Ctx& ctx) {
   double sig = std::exp((std::log(*std::min_element(p.T.begin(), p.T.end())) + std::log(*std::max_element(p.T.begin(), p.T.end()))) / 2);
   Costs costs = gen_costs(t, sig);
   double rho_eff = rho * std::pow(sig, 2 * S - 1) / 64.0;
-  OptI opt; IdentityTimeMap tm;
-  VCHECK(ctx, opt.setInitState(p.T, p.P, p.t0, p.bc), "init-rejected", "valid problem rejected");
   configure(opt, p, flagbits, rho_eff, K);
   Eigen::VectorXd x = gen_x(t, opt, tm, N);
   const int n = (int)x.size();
-  std::string who = std::string(oname()) + " dim=" + std::to_string(D) + " N=" + std::to_string(N) + " K=" + std::to_string(K) + " maps=IdentityTime+Identity flags=" + flags_str(flagbits) + " rho=" + g6(rho_eff);
+  std::string who = std::string(oname()) + " dim=" + std::to_string(D) + " N=" + std::to_string(N) + " K=" + std::to_string(K) + " maps=" + mapname + " flags=" + flags_str(flagbits) + " rho=" + g6(rho_eff);
   if (ctx.want_desc) ctx.desc << "\"order\": \"" << oname() << "\", \"dim\": " << D << ", \"N\": " << N << ", \"K\": " << K << ", \"flags\": \"" << flags_str(flagbits) << "\", \"rho\": " << g6(rho_eff) << ", \"t0\": " << g17(p.t0) << ", \"oracle\": \"reference Jacobian\"";
-  ctx.label(rho == 0 ? "rho=0" : "rho>0"); ctx.label("K=" + std::to_string(K));
+  ctx.label(rho == 0 ? "rho=0" : "rho>0"); ctx.label("K=" + std::to_string(K)); ctx.label(std::string("x-maps:") + mapname);
   Eigen::VectorXd g;
-  typename OptI::Workspace ws;
+  typename Opt::Workspace ws;
   double c0 = opt.evaluate(x, g, costs.tc, costs.wc, costs.rc, &ws);
   (void)c0;
   // decode by the documented layout
   LayoutModel L;
-  L.build(N, D, S, flags_from_bits(flagbits), [&](int) { return D; });
+  L.build(N, D, S, flags_from_bits(flagbits), [&](int i) { return sm ? sm->getUnconstrainedDim(i) : D; });
   VCHECK(ctx, L.total == n, "dimension", who << ": decision vector has " << n << " entries, documented layout " << L.total);
   SplineCase<D> sc; sc.s = S; sc.N = N; sc.T.resize(N); sc.P = p.P; sc.bc = p.bc; sc.t0 = p.t0;
-  for (int i = 0; i < N; ++i) sc.T[i] = x(i);
-  for (size_t k = 0; k < L.point_index.size(); ++k) for (int d = 0; d < D; ++d) sc.P(L.point_index[k], d) = x(L.point_offset[k] + d);
+  for (int i = 0; i < N; ++i) sc.T[i] = tm.toTime(x(i));
+  for (size_t k = 0; k < L.point_index.size(); ++k) {
+    Eigen::VectorXd xi = x.segment(L.point_offset[k], L.point_dof[k]);
+    Eigen::VectorXd ph = sm ? sm->toPhysical(xi, L.point_index[k]) : xi;
+    for (int d = 0; d < D; ++d) sc.P(L.point_index[k], d) = ph(d);
+  }
   { int off = L.deriv_offset; for (auto& b : L.dblocks) { for (int d = 0; d < D; ++d) sc.bc_field(b.first, b.second)(d) = x(off + d); off += D; } }
   RefSpline ref;
   ref.solve_problem(sc.ref_problem());
@@ -276,30 +277,63 @@ void c07x(Tape& t, Ctx& ctx) {
   RefSpline::Adjoint ab = ref.adjoint(aC, aT);   // condition-aware scale from the absolute partials
   const ld tau = 1e-7L;
   const ld tz = S == 2 ? 1e-12L : (S == 3 ? 1e-11L : 1e-10L);
-  auto cmp = [&](int slot, ld refv, ld sigma, ld nat, const std::string& name) -> bool {
+  // lib entry vs reference entry with an allowance; `allow` already contains tau*sigma + structural-zero floor of the physical quantity,
+  // pushed through the map's backward rule (maps are user code: their own backward functions are applied to the reference gradient)
+  auto cmp = [&](int slot, ld refv, ld allow, ld sigma_like, const std::string& name) -> bool {
     ld e = fabsl((ld)g(slot) - refv);
-    ld allow = tau * sigma + tz * nat + 1e-280L;
-    if (sigma >= 1e-3L * nat && sigma > 0) ctx.maxi(std::string("x_err_over_sigma_") + oname(), (double)(e / sigma));
-    if (!(e <= allow)) {
-      VFAILNR(ctx, "gradient-vs-reference", who << ": gradient entry " << slot << " (" << name << ") is " << g17(g(slot)) << " but the reference (reference Jacobian applied to the user gradients and the documented quadrature) gives " << lg(refv) << " (|diff|/sigma = " << lg(sigma > 0 ? e / sigma : 0) << ")");
+    if (sigma_like > 0) ctx.maxi(std::string("x_err_over_allow_") + oname(), (double)(e / (allow + 1e-300L)));
+    if (!(e <= allow + 1e-280L)) {
+      VFAILNR(ctx, "gradient-vs-reference", who << ": gradient entry " << slot << " (" << name << ") is " << g17(g(slot)) << " but the reference (reference Jacobian applied to the user gradients and the documented quadrature, then the map's backward rule) gives " << lg(refv) << " (|diff| = " << lg(e) << ", allowed " << lg(allow) << ")");
       return false;
     }
     return true;
   };
-  for (int i = 0; i < N; ++i) if (!cmp(i, ad.times(i), ab.times_sigma(i), ab.times_nat(i), "duration " + std::to_string(i))) return;
+  for (int i = 0; i < N; ++i) {
+    ld dTdtau = (ld)tm.backward(x(i), sc.T[i], 1.0);
+    ld allow = fabsl(dTdtau) * (tau * ab.times_sigma(i) + tz * ab.times_nat(i));
+    if (!cmp(i, dTdtau * ad.times(i), allow, ab.times_sigma(i), "time slot " + std::to_string(i))) return;
+  }
   for (size_t k = 0; k < L.point_index.size(); ++k) {
     int i = L.point_index[k];
-    for (int d = 0; d < D; ++d)
-      if (!cmp(L.point_offset[k] + d, ad.theta(i, d) + (ld)wq(i, d), ab.theta_sigma(i, d) + fabsl((ld)wq(i, d)), ab.theta_nat(i, d), "waypoint " + std::to_string(i) + " coordinate " + std::to_string(d))) return;
+    int dof = L.point_dof[k];
+    Eigen::VectorXd xi = x.segment(L.point_offset[k], dof);
+    std::vector<ld> refv(dof, 0), allow(dof, 0), sg(dof, 0);
+    for (int d = 0; d < D; ++d) {
+      Eigen::VectorXd e = Eigen::VectorXd::Zero(D); e(d) = 1.0;
+      Eigen::VectorXd Jrow = sm ? Eigen::VectorXd(sm->backwardGrad(xi, e, i)) : e;   // d p_d / d xi
+      ld gp = ad.theta(i, d) + (ld)wq(i, d);
+      ld ap = tau * (ab.theta_sigma(i, d) + fabsl((ld)wq(i, d))) + tz * ab.theta_nat(i, d);
+      for (int q = 0; q < dof; ++q) { refv[q] += (ld)Jrow(q) * gp; allow[q] += fabsl((ld)Jrow(q)) * ap; sg[q] += fabsl((ld)Jrow(q)) * ab.theta_sigma(i, d); }
+    }
+    for (int q = 0; q < dof; ++q)
+      if (!cmp(L.point_offset[k] + q, refv[q], allow[q] * (sm ? 4 : 1), sg[q], "waypoint " + std::to_string(i) + " unconstrained coordinate " + std::to_string(q))) return;
   }
   { int off = L.deriv_offset;
     for (auto& b : L.dblocks) {
       int row = N + 1 + (b.first ? (S - 1) : 0) + (b.second - 1);
-      for (int d = 0; d < D; ++d) if (!cmp(off + d, ad.theta(row, d), ab.theta_sigma(row, d), ab.theta_nat(row, d), std::string(b.first ? "end" : "start") + " derivative of order " + std::to_string(b.second) + " coordinate " + std::to_string(d))) return;
+      for (int d = 0; d < D; ++d) if (!cmp(off + d, ad.theta(row, d), tau * ab.theta_sigma(row, d) + tz * ab.theta_nat(row, d), ab.theta_sigma(row, d), std::string(b.first ? "end" : "start") + " derivative of order " + std::to_string(b.second) + " coordinate " + std::to_string(d))) return;
       off += D;
     } }
   bool gt_used = costs.rc.obs != 0 || costs.rc.sn != 0 || costs.rc.lin_t != 0;
   ctx.nontrivial = (flagbits & 0xEE) != 0 && K >= 2 && gt_used;
+}
+
+
+void c07x(Tape& t, Ctx& ctx) {
+  int mp = t.range(0, 2);
+  int N = t.pickw({2, 2, 3, 2, 1, 1}) + 1;
+  double tsc;
+  Problem p = gen_problem(t, N, &tsc);
+  if (mp == 0) { OptI opt; IdentityTimeMap tm; VCHECK(ctx, opt.setInitState(p.T, p.P, p.t0, p.bc), "init-rejected", "valid problem rejected"); c07x_run(t, ctx, opt, tm, (const UserSpatialMap<D>*)nullptr, p, "IdentityTime+Identity"); }
+  else if (mp == 1) { OptD opt; QuadInvTimeMap tm; VCHECK(ctx, opt.setInitState(p.T, p.P, p.t0, p.bc), "init-rejected", "valid problem rejected"); c07x_run(t, ctx, opt, tm, (const UserSpatialMap<D>*)nullptr, p, "QuadInv+Identity"); }
+  else {
+    UserTimeMap tm(t.range(0, 2), (2 + t.range(0, 6)) / 4.0);
+    UserSpatialMap<D> sm(1 + t.range(0, 1000), 1 + t.range(0, 30));
+    OptU opt; opt.setTimeMap(&tm); opt.setSpatialMap(&sm);
+    for (int i = 0; i <= N; ++i) { Eigen::VectorXd v = p.P.row(i).transpose(); Eigen::VectorXd w = sm.project(v, i); for (int d = 0; d < D; ++d) p.P(i, d) = w(d); }
+    VCHECK(ctx, opt.setInitState(p.T, p.P, p.t0, p.bc), "init-rejected", "valid problem rejected");
+    c07x_run(t, ctx, opt, tm, &sm, p, "UserTime+UserSpatial");
+  }
 }
 
 // ===================================================================================== C08
